@@ -41,7 +41,7 @@ func VH_C18_globals_cleared() {
 
 // VH_C18_readonly_and_atomic: EVALRO can never modify data (any write command from the script is refused and
 // nothing changes); EVAL holds the exclusive lock once around all of its calls; EVALNA takes the lock per call.
-//verif:cfg b_script_calls=every_write_command_of_the_script_dispatcher ignorego=1
+//verif:cfg b_script_calls=every_write_command_of_the_script_dispatcher b_script_prologue=none|assigns_EVAL_CMD(eval|evalna|evalro) ignorego=1
 func VH_C18_readonly_and_atomic() {
 	s, lk := vhGateServer()
 	writes := [][]string{
@@ -52,7 +52,9 @@ func VH_C18_readonly_and_atomic() {
 		{"setchan", "c9", "WITHIN", "fleet", "FENCE", "BOUNDS", "0", "0", "1", "1"}, {"delchan", "ch1"},
 	}
 	w := writes[vchoose(len(writes))]
-	script := "return tile38.call("
+	// a script can assign to the globals its call was given (only NEW globals are refused)
+	prologue := [4]string{"", "EVAL_CMD = 'eval' ", "EVAL_CMD = 'evalna' ", "EVAL_CMD = 'evalro' "}[vchoose(4)]
+	script := prologue + "return tile38.call("
 	for i, a := range w {
 		if i > 0 {
 			script += ","
@@ -69,7 +71,7 @@ func VH_C18_readonly_and_atomic() {
 	lk.log = ""
 	s.handleInputCommand(client, msg)
 	after := vhSnapshot(s)
-	vobs("script", cmd, w[0], before != after, lk.log)
+	vobs("script", cmd, prologue, w[0], before != after, lk.log)
 	switch variant {
 	case 0:
 		vassert("C18.K1.evalro_never_modifies", before == after && len(s.aofbuf) == aofBefore)
